@@ -71,7 +71,7 @@ def pipeline(run, kind, race=False):
         args += ["-trace", trace]
     if race:
         args += ["-race", "-race-every", "2" if run.tier == "thorough" else "5"]
-    summ = run.harness(args, timeout=7200)
+    summ = chunked_harness(run, scen, obs, work, trace, args)
     if trace:
         # B2: every logged rule choice must be the first matching builder of the chain for the logged type features
         run.validate_trace("Trace_Gen", trace, invariants=["SigConsistentAtAppend"], properties=["ExplicitFrozen"], what="rules-family programs", timeout=3600)
@@ -79,6 +79,54 @@ def pipeline(run, kind, race=False):
     run.scen_files["rules"] = scen
     n = run.validate_obs("Obs_Rules", obs, workers=1, timeout=3600)
     return summ, scen, obs
+
+
+CHUNK = int(os.environ.get("VERIF_RULES_CHUNK", "15000"))
+
+
+def chunked_harness(run, scen, obs, work, trace, args):
+    """One generator run type-checks all converters of its scenario file as one package, which is superlinear: beyond CHUNK scenarios
+    the file is cut into pieces that run as separate harness processes (three at a time); scenario ids are shifted back afterwards."""
+    with open(scen) as fh:
+        lines = fh.readlines()
+    if len(lines) <= CHUNK:
+        return run.harness(args, timeout=7200)
+    import re
+    idre = re.compile(r'"id":(\d+)([,}])')
+    pieces = []
+    for k in range(0, len(lines), CHUNK):
+        base = os.path.join(run.scratch, "chunk%d" % (k // CHUNK))
+        os.makedirs(base, exist_ok=True)
+        with open(os.path.join(base, "scen.ndjson"), "w") as fh:
+            fh.writelines(lines[k:k + CHUNK])
+        a = ["rules", "-scen", os.path.join(base, "scen.ndjson"), "-obs", os.path.join(base, "obs.ndjson"), "-work", os.path.join(base, "work")]
+        if trace:
+            a += ["-trace", os.path.join(base, "trace.ndjson")]
+        a += [x for x in args if x in ("-race",)]
+        if "-race-every" in args:
+            a += ["-race-every", args[args.index("-race-every") + 1]]
+        pieces.append((k, base, a))
+    with cf.ThreadPoolExecutor(max_workers=3) as ex:
+        summs = list(ex.map(lambda p: run.harness(p[2], timeout=7200), pieces))
+    total = {}
+    for sm in summs:
+        for key, v in sm.items():
+            if isinstance(v, (int, float)):
+                total[key] = total.get(key, 0) + v
+    with open(obs, "w") as out:
+        for (k, base, _a) in pieces:
+            with open(os.path.join(base, "obs.ndjson")) as fh:
+                for line in fh:
+                    out.write(idre.sub(lambda m: '"id":%d%s' % (int(m.group(1)) + k, m.group(2)), line, count=1) if k else line)
+    if trace:
+        with open(trace, "w") as out:
+            for (k, base, _a) in pieces:
+                with open(os.path.join(base, "trace.ndjson")) as fh:
+                    out.writelines(fh)
+    import shutil
+    for (k, base, _a) in pieces:
+        shutil.rmtree(base, ignore_errors=True)
+    return total
 
 
 def export_one(run, leaves, depth, width, only, out, part, parts, mode):
